@@ -250,7 +250,7 @@ func cmdParse(args []string) error {
 		// budgets (C11): real against real; N is what the real unlimited parse took
 		if len(c.Bud) > 2 && c.Bud[0] == '{' && got.Cnt > 0 {
 			N := got.Cnt
-			for _, b := range []uint64{1, 2, N / 2, N - 1, N, N + 1, 2 * N, 1 << 22} {
+			for _, b := range []uint64{1 << 22, 2 * N, N + 1, N, N - 1, N / 2, 2, 1} {
 				if b == 0 {
 					continue
 				}
@@ -271,6 +271,11 @@ func cmdParse(args []string) error {
 				if !ok {
 					add(&budget, fmt.Sprintf("budget n=%d, N=%d", b, N), want, gb)
 				}
+			}
+			// a budget belongs to one parse: the next unlimited parse is what it was before
+			again := realParse(src, 0)
+			if again.Acc != got.Acc || again.Cnt != got.Cnt {
+				add(&budget, "unlimited parse after budgeted parses", got, again)
 			}
 		}
 	}
